@@ -28,6 +28,9 @@ type Step struct {
 	Behaviour int    `json:"behaviour,omitempty"`
 	SameTx    bool   `json:"same_tx,omitempty"` // next message of the previous message's transaction
 	ParamsB64 string `json:"params_b64,omitempty"`
+	From      string `json:"from,omitempty"` // bank send
+	To        string `json:"to,omitempty"`
+	Amount    int64  `json:"amount,omitempty"`
 }
 
 type FundRec struct {
@@ -288,9 +291,39 @@ func (r *Run) MsgTx(msg sdk.Msg, note string, sameTx bool) StepResult {
 		return StepResult{}
 	}
 	typ, b64 := encodeMsg(msg)
+	return r.msgBytes(typ, b64, note, sameTx)
+}
+
+// msgBytes delivers a message the way a chain does: decoded from its wire form (so that
+// what the handler sees is what the protobuf decoder produces, e.g. an explicitly encoded
+// zero-length bytes field arrives as an empty, non-nil slice).
+func (r *Run) msgBytes(typ, b64, note string, sameTx bool) StepResult {
+	if expired() {
+		r.stop = true
+		return StepResult{}
+	}
+	msg := decodeMsg(typ, b64)
 	st := Step{Kind: "msg", MsgType: typ, MsgB64: b64, Desc: describeMsg(msg), Note: note, SameTx: sameTx}
 	res := r.w.DeliverMsgTx(msg, sameTx)
 	r.after(st, msg, res)
+	return res
+}
+
+// MsgRaw delivers hand-encoded wire bytes of a message type.
+func (r *Run) MsgRaw(typ string, raw []byte, note string) StepResult {
+	return r.msgBytes(typ, base64.StdEncoding.EncodeToString(raw), note, false)
+}
+
+// Send is an ordinary bank transfer, routed through the bank module's message handler
+// (which refuses blocked recipients such as module accounts).
+func (r *Run) Send(from, to sdk.AccAddress, amt int64, note string) StepResult {
+	if expired() {
+		r.stop = true
+		return StepResult{}
+	}
+	st := Step{Kind: "send", From: hexs(from), To: hexs(to), Amount: amt, Note: note, Desc: fmt.Sprintf("bank-send %.8s -> %.8s %d%s", hexs(from), hexs(to), amt, denom)}
+	res := r.w.BankSend(from, to, amt)
+	r.after(st, nil, res)
 	return res
 }
 
@@ -405,7 +438,9 @@ func Replay(a *App, h *History, mon *Mon) *Run {
 	for _, st := range h.Steps {
 		switch st.Kind {
 		case "msg":
-			r.MsgTx(decodeMsg(st.MsgType, st.MsgB64), st.Note, st.SameTx)
+			r.msgBytes(st.MsgType, st.MsgB64, st.Note, st.SameTx)
+		case "send":
+			r.Send(unhex(st.From), unhex(st.To), st.Amount, st.Note)
 		case "block":
 			r.Block(time.Duration(st.DtNs))
 		case "mod":
